@@ -87,8 +87,8 @@ inductive Val where
   | num (neg : Bool) (mant : Str) (exp : Option (Nat × Str))
       -- `repr(float)` / `Decimal.to_eng_string()`: `[-]mantissa[(+|-)exponent]`, the runs uninterpreted (`1.5e`, `07`, `inf`, `NaN`)
   | seq (l : List Val)      -- tuple / list
-  | instInt (id : Int)      -- an SQLObject instance with an integer id: `SQLObject.__sqlrepr__` = `str(self.id)`
-  | instStr (id : Str)      -- … with a string id (`sqlmeta.idType = str`): `str(self.id)` is the BARE text
+  | instInt (id : Int)      -- an SQLObject instance with an integer id: `SQLObject.__sqlrepr__` = `sqlrepr(self.id, db)`
+  | instStr (id : Str)      -- … with a string id (`sqlmeta.idType = str`)
 
 def Val.isNull : Val → Bool
   | .null => true
@@ -117,7 +117,7 @@ def render (d : Dialect) : Val → Str
   | .datetime y m dd h mi s us => fmt dateTimeFmt [y, m, dd, h, mi, s, us] []
   | .num neg mant exp => renderNum neg mant exp
   | .instInt i => renderInt i
-  | .instStr s => s
+  | .instStr s => renderString d s
   | .seq l => seqOpen ++ renderSeq d l ++ seqClose
 /-- `", ".join([sqlrepr(v, d) for v in l])` -/
 def renderSeq (d : Dialect) : List Val → Str
